@@ -360,7 +360,10 @@ class Printer:
         self.chain[-1].declare(m.name, m)
 
     def emit_import(self, imp: Import) -> None:
-        path = imp.path_text if imp.path_text is not None else imp.file.filename
+        path = imp.path_text
+        if path is None:
+            import posixpath
+            path = posixpath.relpath(imp.file.relpath, start=self.f.subdir or ".")
         if imp.as_name:
             ln = self._line(0, f'import {imp.as_name} "{path}"{self._semi()}')
         else:
@@ -415,7 +418,8 @@ def write_schema(root: File, directory: str, rng: Optional[random.Random] = None
     paths: Dict[str, str] = {}
     for g in root.all_files():
         text = Printer(g, rng=rng, **kw).render()
-        p = os.path.join(directory, g.filename)
+        p = os.path.join(directory, g.relpath)
+        os.makedirs(os.path.dirname(p), exist_ok=True)
         with open(p, "w") as fh:
             fh.write(text)
         paths[g.basename] = p
